@@ -198,6 +198,80 @@ static Options opts_of(const std::string& s)
     return o;
 }
 
+static const char* string_of(Format f)
+{
+    switch (f) {
+    case Format::Context:
+        return "context";
+    case Format::Unified:
+        return "unified";
+    case Format::Git:
+        return "git";
+    case Format::Ed:
+        return "ed";
+    case Format::Normal:
+        return "normal";
+    case Format::Unknown:
+        return "unknown";
+    }
+    return "?";
+}
+
+static const char* string_of(Operation o)
+{
+    switch (o) {
+    case Operation::Change:
+        return "change";
+    case Operation::Rename:
+        return "rename";
+    case Operation::Copy:
+        return "copy";
+    case Operation::Delete:
+        return "delete";
+    case Operation::Add:
+        return "add";
+    case Operation::Binary:
+        return "binary";
+    }
+    return "?";
+}
+
+static std::string enc_hunk(const Hunk& h)
+{
+    std::ostringstream r;
+    r << h.old_file_range.start_line << '/' << h.old_file_range.number_of_lines << '/'
+      << h.new_file_range.start_line << '/' << h.new_file_range.number_of_lines << '/';
+    if (h.lines.empty())
+        r << '-';
+    bool first = true;
+    for (const auto& l : h.lines) {
+        if (!first)
+            r << ',';
+        first = false;
+        r << (l.operation == ' ' ? '_' : l.operation) << hex(l.line.content) << ':' << char_of_nl(l.line.newline);
+    }
+    return r.str();
+}
+
+static std::string enc_patch(const Patch::Patch& p)
+{
+    std::ostringstream r;
+    r << "PATCH fmt=" << string_of(p.format) << " op=" << string_of(p.operation) << " old=" << hex(p.old_file_path)
+      << " new=" << hex(p.new_file_path) << " index=" << hex(p.index_file_path) << " prereq=" << hex(p.prerequisite)
+      << " ot=" << hex(p.old_file_time) << " nt=" << hex(p.new_file_time) << " om=" << p.old_file_mode
+      << " nm=" << p.new_file_mode << " hunks=";
+    if (p.hunks.empty())
+        r << '-';
+    bool first = true;
+    for (const auto& h : p.hunks) {
+        if (!first)
+            r << ';';
+        first = false;
+        r << enc_hunk(h);
+    }
+    return r.str();
+}
+
 static std::string run_case(const std::vector<std::string>& t)
 {
     std::ostringstream r;
@@ -210,6 +284,60 @@ static std::string run_case(const std::vector<std::string>& t)
             return "NOTFOUND";
         r << "FOUND " << loc.line_number << ' ' << loc.fuzz << ' ' << loc.offset;
         return r.str();
+    }
+    if (cmd == "PARSE1" && t.size() == 4) {
+        File f = File::create_temporary_with_content(unhex(t[3]));
+        auto patch = parse_patch(f, fmt_of(t[1]), std::atoi(t[2].c_str()));
+        return enc_patch(patch);
+    }
+    if (cmd == "PARSEALL" && t.size() == 4) {
+        // the section loop of process_patch, without the file system part
+        File f = File::create_temporary_with_content(unhex(t[3]));
+        Parser parser(f);
+        bool first = true;
+        std::string out;
+        while (!parser.is_eof()) {
+            Patch::Patch patch(fmt_of(t[1]));
+            PatchHeaderInfo info;
+            bool should_parse_body = parser.parse_patch_header(patch, info, std::atoi(t[2].c_str()));
+            if (patch.format == Format::Unknown) {
+                if (first)
+                    throw std::invalid_argument("Only garbage was found in the patch input.");
+                break;
+            }
+            first = false;
+            if (patch.operation != Operation::Binary && should_parse_body)
+                parser.parse_patch_body(patch);
+            if (!out.empty())
+                out += " | ";
+            out += enc_patch(patch);
+        }
+        return out.empty() ? "NONE" : out;
+    }
+    if (cmd == "STRIP" && t.size() == 3)
+        return "BYTES " + hex(strip_path(unhex(t[2]), std::atoi(t[1].c_str())));
+    if (cmd == "UNQUOTE" && t.size() == 2) {
+        std::string in = unhex(t[1]);
+        // LineParser::parse_quoted_string leaves the cursor on the closing quote; observe the rest through parse_file_line's split
+        LineParser lp(in);
+        auto out = lp.parse_quoted_string();
+        std::string rest;
+        while (!lp.is_eof())
+            rest.push_back(lp.consume());
+        return "BYTES " + hex(out) + " " + hex(rest);
+    }
+    if (cmd == "FILELINE" && t.size() == 3) {
+        std::string in = unhex(t[2]);
+        LineParser lp(in);
+        std::string path = "?";
+        std::string ts = "\x01KEEP";
+        lp.parse_file_line(std::atoi(t[1].c_str()), path, &ts);
+        return "NAME " + hex(path) + " " + (ts == "\x01KEEP" ? std::string("KEEP") : "TS=" + hex(ts));
+    }
+    if ((cmd == "URANGE" || cmd == "NRANGE") && t.size() == 2) {
+        Hunk h;
+        bool ok = cmd == "URANGE" ? parse_unified_range(h, unhex(t[1])) : parse_normal_range(h, unhex(t[1]));
+        return ok ? "RANGE " + enc_hunk(h) : "NORANGE";
     }
     if (cmd == "WSMATCH" && t.size() == 3)
         return matches_ignoring_whitespace(unhex(t[1]), unhex(t[2])) ? "1" : "0";
